@@ -1,5 +1,5 @@
 (* Executable checker of property C01 on observed binary32 values (definitions
-   only; soundness is in F32Proofs.v).
+   only; soundness is in CheckProofs.v).
 
    For one scored position the property says: the value is the sum over j of
    matrix[j][sequence[i+j]], negative infinity as soon as one term is, within
@@ -12,7 +12,7 @@
                 finite), resp. v = -inf when a term is -inf and no term is
                 +inf/NaN: a reordering of the additions, not a wrong score;
      - VUnknown the case is outside the property's quantifier (a +inf or NaN
-                cell) or the terms are so large (sum |t_j| >= 2^127) that an
+                cell) or the terms are so large (sum |t_j| >= 2^126) that an
                 intermediate overflow is possible: nothing is claimed;
      - VBad     the property is violated.
    Exact sums are computed in Z, in units of 2^-149 (the smallest subnormal). *)
@@ -60,28 +60,34 @@ Definition scaled0 (x : f32) : Z := match fin_scaled x with Some z => z | None =
 Definition exact_sum (l : list f32) : Z := fold_left (fun a x => a + scaled0 x) l 0.
 Definition abs_sum (l : list f32) : Z := fold_left (fun a x => a + Z.abs (scaled0 x)) l 0.
 
-(* sum |t_j| < 2^127: no partial sum, in any order, can overflow *)
-Definition overflow_limit : Z := 2 ^ 276.
+(* sum |t_j| < 2^126: no partial sum of the left-to-right evaluation can overflow
+   (F32Proofs.sums_finite_bound); beyond it nothing is claimed *)
+Definition overflow_limit : Z := 2 ^ 275.
 
 Inductive verdict := VExact | VClose | VUnknown | VBad (code : nat).
 
 Definition within_tol (terms : list f32) (z : Z) : bool :=
   Z.abs (z - exact_sum terms) * 2 ^ 23 <=? Z.of_nat (length terms) * abs_sum terms.
 
+(* [d] is the defined sum (only used to tell "bit-identical" from "close"); whether
+   the property holds of [v] never depends on it *)
 Definition check_value (terms : list f32) (d v : f32) : verdict :=
-  if feqb v d then VExact
-  else match classify terms with
-       | Outside => VUnknown
-       | AllFinite =>
-           if overflow_limit <=? abs_sum terms then VUnknown
-           else match fin_scaled v with
-                | None => VBad 1
-                | Some z => if within_tol terms z then VClose else VBad 2
-                end
-       | HasNegInf =>
-           if overflow_limit <=? abs_sum terms then VUnknown
-           else if feqb v F32.ninf then VClose else VBad 3
-       end.
+  let same := if feqb v d then VExact else VClose in
+  let unknown := if feqb v d then VExact else VUnknown in
+  match classify terms with
+  | Outside => unknown
+  | AllFinite =>
+      if overflow_limit <=? abs_sum terms then unknown
+      else match fin_scaled v with
+           | None => VBad 1
+           | Some z => if within_tol terms z then same else VBad 2
+           end
+  | HasNegInf =>
+      if overflow_limit <=? abs_sum terms then unknown
+      else if feqb v F32.ninf then same else VBad 3
+  end.
+
+Definition passes (x : verdict) : bool := match x with VBad _ => false | _ => true end.
 
 Definition worse (a b : verdict) : verdict :=
   match a, b with
@@ -111,3 +117,7 @@ Definition check_values (N : nat) (pssm : list (list f32)) (s : list nat) (vals 
   if Nat.eqb (length vals) (length s + 1 - length pssm)
   then check_values_from N pssm s 0 vals
   else VBad 9.
+
+(* the property checker behind the driver's PROPFAIL decision *)
+Definition check_C01 (N : nat) (pssm : list (list f32)) (s : list nat) (vals : list f32) : bool :=
+  passes (check_values N pssm s vals).
